@@ -528,6 +528,38 @@ static void op_inq(void)
     logf_("R %d inq what=%s err=%d val=%lld val2=%lld\n", g_line, w, err, val, val2);
 }
 
+/* readsome: for every variable read the first element (var1) and, when small, the whole variable; bounded work */
+static void op_readsome(void)
+{
+    int ncid = get_ncid(), nv = 0, err, nread = 0, nerr = 0, firsterr = 0;
+    long long maxbytes = argi("max", 65536);
+    err = ncmpi_inq_nvars(ncid, &nv);
+    if (err) { logf_("R %d readsome err=%d\n", g_line, err); return; }
+    for (int v = 0; v < nv && v < 64; v++) {
+        int nd = -1; nc_type xt = -1; int dimids[64];
+        if (ncmpi_inq_varndims(ncid, v, &nd) || nd < 0 || nd > 64) { nerr++; continue; }
+        if (ncmpi_inq_var(ncid, v, NULL, &xt, NULL, dimids, NULL)) { nerr++; continue; }
+        MPI_Offset start[64], count[64]; long long total = 1; int empty = 0;
+        for (int d = 0; d < nd; d++) { MPI_Offset len = 0; if (ncmpi_inq_dimlen(ncid, dimids[d], &len)) { empty = 1; break; }
+            start[d] = 0; count[d] = len; if (len <= 0) empty = 1; if (total <= (1LL << 40)) total *= (len > 0 ? len : 1); }
+        if (empty) continue;
+        unsigned char *raw = galloc(16, 0x5A);
+        int e = ncmpi_get_var1(ncid, v, start, raw + GUARD, 0, MPI_DATATYPE_NULL);
+        if (e) { nerr++; if (!firsterr) firsterr = e; } else nread++;
+        if (!gcheck(raw, 16)) { logf_("S %d readsome guard=0 v=%d\n", g_line, v); }
+        free(raw);
+        size_t xs = xtsize(xt);
+        if (total > 0 && total * (long long)xs <= maxbytes) {
+            raw = galloc((size_t)total * xs, 0x5A);
+            e = ncmpi_get_vara_all(ncid, v, start, count, raw + GUARD, 0, MPI_DATATYPE_NULL);
+            if (e) { nerr++; if (!firsterr) firsterr = e; } else nread++;
+            if (!gcheck(raw, (size_t)total * xs)) { logf_("S %d readsome guard=0 v=%d\n", g_line, v); }
+            free(raw);
+        }
+    }
+    logf_("R %d readsome err=0 nvars=%d nread=%d nerr=%d firsterr=%d\n", g_line, nv, nread, nerr, firsterr);
+}
+
 static unsigned char *readfile(const char *path, size_t *n)
 {
     int fd = open(path, O_RDONLY); *n = 0; if (fd < 0) return NULL;
@@ -706,6 +738,7 @@ int main(int argc, char **argv)
         else if (!strcmp(op, "wait") || !strcmp(op, "cancel")) op_wait(op);
         else if (!strcmp(op, "chkbuf") || !strcmp(op, "dumpbuf")) op_bufs(op);
         else if (!strcmp(op, "sweep")) op_sweep();
+        else if (!strcmp(op, "readsome")) op_readsome();
         else if (!strcmp(op, "inq")) op_inq();
         else if (!strcmp(op, "type")) op_type();
         else if (!strcmp(op, "snapshot") || !strcmp(op, "filehash") || !strcmp(op, "fsnap") || !strcmp(op, "fdiff") || !strcmp(op, "pread")
